@@ -302,6 +302,9 @@ def slice_layout(ctx):
         r = random.Random(f'{ctx["seed"]}/layout/{i}')
         a, b = layoutgen.layout_pair(r, kinds)
         srcs += [a, b]
+        if i % 25 == 0:
+            # an earlier rejected text on the same parser must not change how later layout is read
+            srcs.append(r.choice(['f(1', '[1, 2', 'g(1 +', '{1: 2', '1 + 2)', '((', 'x = [', '"abc', 'a $ b']))
     lines = ['PARSE ' + hx(s) for s in srcs]
     io, mo, d, dt = corr.compare(lines)
     nontriv = [i for i, a in enumerate(io) if a.startswith('ok')]
@@ -375,7 +378,7 @@ def slice_malformed(ctx):
         for c in ('PARSE', 'NAMES'):
             lines.append(c + ' ' + hx(s))
             descr.append(c + ' ' + repr(s))
-    planted = ['undefined_var', 'nofn(1)', 'u += 1', '[1,2][5]', '{"a": 1}["b"]', 'pop([])', 'x = []\nx[3]', '"abc"[7]', 'd = {}\nd["k"]',
+    planted = ['items({"a": 1})[0][2]', 'enumerate([1])[0][5]', 'items({"a": 1})[3]', 'undefined_var', 'nofn(1)', 'u += 1', '[1,2][5]', '{"a": 1}["b"]', 'pop([])', 'x = []\nx[3]', '"abc"[7]', 'd = {}\nd["k"]',
                'for', 'x = while', '1 $ 2', '1 +', 'f(']
     ctxs = ['{E}', '[1, {E}]', 'len({E})', '{{"k": {E}}}', '{{{E}: 1}}', '[1,2,3][{E}:]', '[1,2,3][{E}]', 'v => {E}', 'apply(v => {E}, 1)',
             '{E} if True else 1', '1 if {E} else 2', '1 if False else {E}', 'x = {E}', 'x = [0]\nx[0] = {E}', 'x = [0]\nx[0] += {E}',
@@ -407,3 +410,19 @@ def slice_session_scope(ctx):
     return _finish('session_scope', lines, descr, io, mo, d, dt,
                    'histories of 2..10 evals of valid texts (assignments to builtin names, lambdas, reads) on one SqParser with 1..3 '
                    'names mappings and names=None calls; every call compared', list(range(len(lines))))
+
+
+def slice_name_lookup(ctx):
+    """C18: programs whose names are %...% lexemes with dots / spaces / operators while PARTS of those names are bound by
+    the host: evaluation may ask the host only for the names list_names reports"""
+    N = 30000 if big(ctx) else 3000
+    cases = []
+    for i in range(N):
+        r = random.Random(f'{ctx["seed"]}/namelookup/{i}')
+        ent = (f'(S:{hx("user")} (M 1 (S:{hx("name")} S:{hx("Ann")}) (S:{hx("tags")} (L 2 S:61)))) (S:{hx("a")} I:1) (S:{hx("b")} I:2) '
+               f'(S:{hx("%a%")} I:10) (S:{hx("a.b")} I:3) (S:{hx("order")} (L 3 I:5 I:6))')
+        nm = r.choice(['%user.name%', '%user.tags%', '%a.b%', '%a%', '%a b%', '%a+b%', '%order.0%', '%user.name.upper%', '%user%', 'user', '%b%', '%order.1%'])
+        src = r.choice([nm, f'{nm} + 1', f'len({nm})', f'x = {nm}; x', f'try_apply(w => {nm}, 0)', f'[{nm}, a]', f'f = v => {nm}; f(1)', f'{nm} = 5; {nm}'])
+        cases.append((gens2.eval_line(src, ent), src))
+    return _eval_slice('name_lookup', cases, '%...% names with dots / blanks / operators whose parts are bound by the host, in every '
+                       'syntactic role; result, error class and names-after compared')
